@@ -10,6 +10,7 @@ comment above `_CfgFlow`)."""
 from __future__ import annotations
 
 import ast
+import itertools
 from typing import Dict, List, Optional, Set, Tuple
 
 from ..cfg import CFG
@@ -85,53 +86,74 @@ def run(repo: Repo, R: Report) -> None:
     _declared_keys_acted_on(repo, R)
     # ------------------------------------------------------------------ D7 / D8
     _same_node_config(repo, R)
+    # ------------------------------------------------------------------ D10
+    _elementwise_wrappers(repo, R)
+    # ------------------------------------------------------------------ D11
+    _wrappers_forward_resolved(repo, R)
 
     # ------------------------------------------------------------------ D5
-    r_state = R.rule("C02-D5-context-state", "per node, after its own parameters were classified: every created key (incl. a probe's context_key) is recorded as produced by *this* node and un-deleted; suppressed keys of context processors become deleted; classification reads the live key_origin/deleted_keys", 7)
+    r_state = R.rule("C02-D5-context-state", "per node, after its own parameters were classified: every created key (incl. a probe's context_key) is recorded as produced by *this* node (under the number the node is reported with) and un-deleted; suppressed keys of context processors become deleted; classification reads the live key_origin/deleted_keys", 7)
     bf = repo.func(BUILDER, BPI)
     from .c02 import _main_loop, state_roles
 
     loop = _main_loop(bf)
     KO, DK = state_roles(bf)
-    idx = loop.target.elts[0].id if isinstance(loop.target, ast.Tuple) else None
+    _bdefs, b_resolved = _local_defs(bf)
+
+    def same_value(a: Optional[ast.AST], b: Optional[ast.AST]) -> bool:
+        return a is not None and b is not None and ast.dump(b_resolved(a)) == ast.dump(b_resolved(b))
+
+    # the number this node is reported under: <node record>(index=..., created_keys=...) - else the enumerate(.., start=1) counter
+    reported_idx = [kwarg(c, "index") for c in calls_in(loop) if kwarg(c, "index") is not None and kwarg(c, "created_keys") is not None]
+    if not reported_idx and isinstance(loop.target, ast.Tuple) and isinstance(loop.target.elts[0], ast.Name):
+        reported_idx = [loop.target.elts[0]]
     stores = [n for n in ast.walk(loop) if isinstance(n, ast.Assign) and any(isinstance(t, ast.Subscript) and dotted_name(t.value) == KO for t in n.targets)]
     sd = [c for c in calls_in(loop) if call_attr(c) in ("setdefault",) and dotted_name(c.func.value) == KO]
     R.check(not sd, r_state, BUILDER, BPI, "no key_origin.setdefault(...)", "the first writer of a key is kept as its origin: after a key is re-created the reported origin of a later reader points at the wrong node", sd[0].lineno if sd else loop.lineno)
-    created_loop = [n for n in ast.walk(loop) if isinstance(n, ast.For) and n is not loop and isinstance(n.iter, ast.Name) and any(any(a is n for a in ancestors(s)) for s in stores)]
+    created_loop = [n for n in ast.walk(loop) if isinstance(n, ast.For) and n is not loop and _collection_name(n.iter) is not None and any(any(a is n for a in ancestors(s)) for s in stores)]
     ok = False
-    CK = created_loop[0].iter.id if created_loop else "__missing__"
+    CK = _collection_name(created_loop[0].iter) if created_loop else "__missing__"
+    dk_muts = _set_mutations(loop, DK)
+    undel: List[ast.AST] = []
     if created_loop:
         body = created_loop[0]
         k = body.target.id if isinstance(body.target, ast.Name) else None
         st = [s for s in stores if any(a is body for a in ancestors(s))]
-        ok = bool(st) and all(dotted_name(s.value) == idx and ast.unparse(s.targets[0]) == f"{KO}[{k}]" and not [a for a in ancestors(s) if isinstance(a, ast.If) and any(a2 is body for a2 in ancestors(a))] for s in st)
-        undelete = any(isinstance(c, ast.Call) and call_attr(c) in ("remove", "discard") and dotted_name(c.func.value) == DK for c in ast.walk(body))
-        ok = ok and undelete
+        ok = bool(st) and all(any(same_value(s.value, i) for i in reported_idx) and ast.unparse(s.targets[0]) == f"{KO}[{k}]" and not [a for a in ancestors(s) if isinstance(a, ast.If) and any(a2 is body for a2 in ancestors(a))] for s in st)
+        # un-delete: an element of the created keys (or all of them at once) is taken out of the deleted set
+        undel = [s for s, kind, arg in dk_muts if kind == "remove" and ((_inside(s, body) and arg is not None and k in _names_of(arg)) or (arg is not None and CK in _names_of(arg)))]
+        ok = ok and bool(undel)
     R.check(ok, r_state, BUILDER, BPI, "for key in created_keys: key_origin[key] = index (unconditionally) and un-delete", "created keys are not all recorded as produced by the current node / re-created keys stay marked deleted", loop.lineno)
-    ck_defs = [n for n in ast.walk(loop) if isinstance(n, ast.Assign) and any(dotted_name(t) == CK for t in n.targets)]
+    ck_defs = [n for n in ast.walk(loop) if isinstance(n, (ast.Assign, ast.AnnAssign)) and n.value is not None and any(dotted_name(t) == CK for t in _targets(n))]
     ok = any("get_created_keys" in ast.unparse(n.value) or any("get_created_keys" in ast.unparse(v) for x in ast.walk(n.value) if isinstance(x, ast.Name) for v in assigned_value(bf, x.id)) for n in ck_defs)
     R.check(ok, r_state, BUILDER, BPI, "created_keys = set(processor.get_created_keys())", "created keys are not taken from the processor's declaration", loop.lineno)
     probe_add = [c for c in calls_in(loop) if call_attr(c) == "add" and dotted_name(c.func.value) == CK and "context_key" in ast.unparse(c)]
     R.check(bool(probe_add) and any(isinstance(a, ast.If) and "_ProbeContextInjectorNode" in ast.unparse(a.test) for a in ancestors(probe_add[0])) if probe_add else False, r_state, BUILDER, BPI, "probe nodes: created_keys.add(node.context_key)", "a probe's context key is not recorded as created by the probe node", loop.lineno)
-    sup = [c for c in calls_in(loop) if call_attr(c) == "update" and dotted_name(c.func.value) == DK]
-    SUP = dotted_name(sup[0].args[0]) if sup and sup[0].args else "__missing__"
-    ok = bool(sup) and any("get_suppressed_keys()" in ast.unparse(v) for v in [n.value for n in ast.walk(loop) if isinstance(n, ast.Assign) and any(dotted_name(t) == SUP for t in n.targets)])
-    R.check(ok, r_state, BUILDER, BPI, "deleted_keys.update(node.get_suppressed_keys())", "keys a context processor removes are not marked deleted: a later reader is reported as satisfied by context", loop.lineno)
+    # suppressed keys: a collection taken from get_suppressed_keys() is added to the deleted set
+    sup_names = {t.id for a in ast.walk(loop) if isinstance(a, (ast.Assign, ast.AnnAssign)) and a.value is not None and any(isinstance(c, ast.Call) and call_attr(c) == "get_suppressed_keys" for c in ast.walk(a.value)) for t in _targets(a) if isinstance(t, ast.Name)}
+    sup = [s for s, kind, arg in dk_muts if kind == "add" and arg is not None and ((_names_of(arg) & sup_names) or any(isinstance(c, ast.Call) and call_attr(c) == "get_suppressed_keys" for c in ast.walk(arg)))]
+    SUP = next((nm for s, kind, arg in dk_muts if kind == "add" and arg is not None for nm in sorted(_names_of(arg) & sup_names)), "__missing__")
+    R.check(bool(sup), r_state, BUILDER, BPI, "deleted_keys.update(node.get_suppressed_keys())", "keys a context processor removes are not marked deleted: a later reader is reported as satisfied by context", loop.lineno)
     ioc = [c for c in calls_in(loop) if call_attr(c) == "inspect_origin"]
     ok = len(ioc) == 1 and dotted_name(kwarg(ioc[0], "key_origin")) == KO and dotted_name(kwarg(ioc[0], "deleted_keys")) == DK and _defined_before_loop(bf, loop, KO) and _defined_before_loop(bf, loop, DK) and "processor_config" in ast.unparse(kwarg(ioc[0], "processor_config") or ast.Constant(value=""))
     R.check(ok, r_state, BUILDER, BPI, "inspect_origin(..., key_origin=key_origin, deleted_keys=deleted_keys)", "parameter origins are not classified against the live per-node context state", loop.lineno)
     # ordering: classification before this node's own stores
     g = CFG(bf, may_raise=lambda p: set())
     heads = set(g.nodes_for(loop))
-    store_ids = [nid for s in stores for nid in g.nodes_for(s)] + [nid for c in sup for nid in g.nodes_for(stmt_of(c))]
-    saved = {h: g.succ[h] for h in heads}
-    for h in heads:
-        g.succ[h] = []
-    try:
-        after = g.reach(store_ids)
-    finally:
-        for h, v in saved.items():
-            g.succ[h] = v
+
+    def within(starts: List[int]) -> Dict[int, object]:
+        """reachability inside one iteration of the node loop (the loop head is reported, not expanded)"""
+        saved = {h: g.succ[h] for h in heads}
+        for h in heads:
+            g.succ[h] = []
+        try:
+            return g.reach(starts)
+        finally:
+            for h, v in saved.items():
+                g.succ[h] = v
+
+    store_ids = [nid for s in stores for nid in g.nodes_for(s)] + [nid for s in sup for nid in g.nodes_for(s)]
+    after = within(store_ids)
     late = [c for c in ioc if any(nid in after for nid in g.nodes_for(stmt_of(c)))]
     # the for-header that contains the call
     for c in ioc:
@@ -140,6 +162,107 @@ def run(repo: Repo, R: Report) -> None:
                 late.append(c)
     R.check(not late, r_state, BUILDER, BPI, "parameters are classified before the node's created/suppressed keys are registered", "a node's own created keys are visible while its parameters are classified: a node that requires and creates the same key satisfies itself", loop.lineno)
     _deleted_availability(bf, loop, g, DK, SUP, CK, R, r_state)
+    _effects_order(repo, R, g, within, sup, undel)
+
+
+def _collection_name(it: ast.AST) -> Optional[str]:
+    """the local collection a loop runs over: `X`, `sorted(X)`, `list(X)`, `tuple(X)`, `set(X)`, `X.copy()`"""
+    while True:
+        if isinstance(it, ast.Call) and isinstance(it.func, ast.Name) and it.func.id in ("sorted", "list", "tuple", "set", "frozenset", "iter") and it.args:
+            it = it.args[0]
+        elif isinstance(it, ast.Call) and isinstance(it.func, ast.Attribute) and it.func.attr == "copy" and not it.args:
+            it = it.func.value
+        else:
+            break
+    return it.id if isinstance(it, ast.Name) else None
+
+
+def _set_mutations(root: ast.AST, name: str) -> List[Tuple[ast.AST, str, Optional[ast.AST]]]:
+    """(statement, "add" | "remove" | "reset", operand) for every statement under *root* that changes the set *name*"""
+    out: List[Tuple[ast.AST, str, Optional[ast.AST]]] = []
+    for n in ast.walk(root):
+        if isinstance(n, ast.Call) and isinstance(n.func, ast.Attribute) and dotted_name(n.func.value) == name:
+            arg = n.args[0] if n.args else None
+            if n.func.attr in ("update", "add"):
+                out.append((stmt_of(n), "add", arg))
+            elif n.func.attr in ("remove", "discard", "difference_update", "pop"):
+                out.append((stmt_of(n), "remove", arg))
+            elif n.func.attr in ("clear", "intersection_update", "symmetric_difference_update"):
+                out.append((stmt_of(n), "reset", arg))
+        elif isinstance(n, ast.AugAssign) and dotted_name(n.target) == name:
+            out.append((n, "add" if isinstance(n.op, ast.BitOr) else ("remove" if isinstance(n.op, ast.Sub) else "reset"), n.value))
+        elif isinstance(n, (ast.Assign, ast.AnnAssign)) and n.value is not None and any(dotted_name(t) == name for t in _targets(n)):
+            v = n.value
+            if isinstance(v, ast.BinOp) and dotted_name(v.left) == name and isinstance(v.op, (ast.BitOr, ast.Sub)):
+                out.append((n, "add" if isinstance(v.op, ast.BitOr) else "remove", v.right))
+            elif isinstance(v, ast.Call) and isinstance(v.func, ast.Attribute) and dotted_name(v.func.value) == name and v.func.attr in ("union", "difference") and v.args:
+                out.append((n, "add" if v.func.attr == "union" else "remove", v.args[0]))
+            else:
+                out.append((n, "reset", v))
+    return out
+
+
+def _effects_order(repo: Repo, R: Report, g: CFG, within, sup: List[ast.AST], undel: List[ast.AST]) -> None:
+    """A node that declares one key as created *and* suppressed (rename:k:k): whether the key is in the context after
+    the node ran depends on the order in which the processor writes and deletes; whether inspection holds it live
+    depends on the order in which the builder applies the node's created and suppressed keys to the deleted set.  The
+    two orders are written in two modules and have to agree."""
+    from ..engine import qualname_of
+    from ..normal import nfunc
+
+    r = R.rule("C02-D5-effects-order-agrees-with-run", "the inspection builder applies a node's declared effects to the deleted-key state in the order in which generated context processors (rename:) perform them at run time: processors notify the write of the created key before the deletion of the suppressed key, so the builder un-deletes the created keys before it adds the suppressed keys - a key a node both creates and suppresses (rename:k:k) is gone after the node on both sides", 2)
+    if not sup or not undel:
+        return  # reported by C02-D5-context-state
+    sup_ids = [nid for s in sup for nid in g.nodes_for(s)]
+    und_ids = [nid for s in undel for nid in g.nodes_for(s)]
+    after_sup = within([t for s in sup_ids for t, _l in g.succ[s]])
+    after_und = within([t for s in und_ids for t, _l in g.succ[s]])
+    create_first = not any(u in after_sup for u in und_ids)
+    suppress_first = not any(s in after_und for s in sup_ids)
+    if not create_first and not suppress_first:
+        raise AnalysisError("build_pipeline_inspection: the node's created keys are un-deleted both before and after its suppressed keys are added to the deleted set; order not recognised")
+    b_order = "created keys first, then suppressed keys" if create_first else "suppressed keys first, then created keys"
+    runs: List[Tuple[str, str, ast.AST, bool]] = []  # (file, function, first offending call, write_first)
+    for mod, qn, F in _outer_functions(repo):
+        logic = _registered(F, "_process_logic")
+        if len(logic) != 1 or not (_registered(F, "get_created_keys") and _registered(F, "get_suppressed_keys")):
+            continue
+        writers, deleters = _base_notifiers(repo, mod, F)
+        if not writers or not deleters:
+            continue
+        L0 = logic[0]
+        lqn = qualname_of(L0)
+        L = nfunc(repo, mod.rel, lqn, copyprop="all") if mod.defs.get(lqn) is L0 else L0
+        if not L.args.args:
+            continue
+        me = L.args.args[0].arg
+        lg = CFG(L, may_raise=lambda part: set())
+
+        def sites(meths: Set[str]) -> List[int]:
+            return [n.id for n in lg.nodes if n.ast is not None and n.kind == "stmt" and any(isinstance(c.func, ast.Attribute) and c.func.attr in meths and _is_name(c.func.value, me) for c in calls_in(n.ast))]
+
+        w, d = sites(writers), sites(deleters)
+        if not w or not d:
+            continue
+        repo.consulted.add(mod.rel)
+        w_after_d = [x for x in w if x in lg.reach([t for s in d for t, _l in lg.succ[s]])]
+        d_after_w = [x for x in d if x in lg.reach([t for s in w for t, _l in lg.succ[s]])]
+        if w_after_d and d_after_w:
+            continue  # both orders occur: not decided
+        runs.append((mod.rel, f"{qn}.{L0.name}", lg.nodes[(w_after_d or d)[0]].ast, not w_after_d))
+    if not runs:
+        raise AnalysisError("no generated context processor that both writes a created key and deletes a suppressed key was found (rename: factory vanished?)")
+    bad_builder = [x for x in runs if x[3] != create_first]
+    if bad_builder and len(bad_builder) == len(runs) and not create_first:
+        rel, fqn, _st, _wf = bad_builder[0]
+        s0 = sup[0]
+        R.violation(r, BUILDER, BPI, norm(s0), f"`{norm(s0)}` is applied before the node's created keys are taken out of the deleted set ({b_order}), while the generated processor ({rel}: {fqn}) writes the created key first and deletes the suppressed key last: after a node that creates and suppresses the same key (rename:k:k) the run-time context no longer holds the key but inspection keeps it live, attributed to that node - a later reader is accepted ('context produced by node i') and fails with 'Unable to resolve parameter', a later defaulted parameter of that name is reported as coming from context", s0.lineno)
+        for rel, fqn, st, _wf in runs:
+            R.ok(r, rel, fqn, "writes before it deletes", "", getattr(st, "lineno", 0))
+        return
+    R.ok(r, BUILDER, BPI, b_order, "", sup[0].lineno)
+    for rel, fqn, st, wf in runs:
+        R.check(wf == create_first, r, rel, fqn, norm(st)[:90], f"the generated processor {'deletes the suppressed key before it writes the created key' if not wf else 'writes the created key before it deletes the suppressed key'}, the inspection builder applies {b_order}: for a node that creates and suppresses the same key (rename:k:k) inspection and run disagree on whether the key is in the context afterwards - the reported created / suppressed keys and the origin of later readers are false of the run", getattr(st, "lineno", 0))
 
 
 def _deleted_availability(bf: ast.AST, loop: ast.For, g: CFG, DK: str, SUP: str, CK: str, R: Report, r_state: str) -> None:
@@ -1977,3 +2100,160 @@ def _generated_parameter_universe(repo: Repo, R: Report, r: str) -> None:
             extra = [k for k in _KINDS if itab[k] != "drop" and rt[k] != "keep" and k not in lost]
             R.check(not lost, r, mod.rel, qn, f"`parameters` metadata keeps every parameter kind {G.name} (line {G.lineno}) resolves", f"parameters of kind {', '.join(lost)} are resolved at run time (closure registered as get_processing_parameter_names, line {G.lineno}: {shown(rt)}) but `{norm(in_at)[:70]}` does not (always) enter them into the `parameters` metadata of the generated class ({shown(itab)}): inspection neither classifies them nor reports the context key they need, and the default lookup shared by inspection and run time (_default_for reads this metadata) does not find their declared default - an accepted configuration whose initial context holds every reported key fails with 'Unable to resolve parameter'", getattr(in_at, "lineno", F0.lineno))
             R.check(not extra, r, mod.rel, f"{qn}.{G.name}", f"resolves every parameter kind the `parameters` metadata lists (line {G.lineno})", f"parameters of kind {', '.join(extra)} are listed in the `parameters` metadata ({shown(itab)}) but `{norm(rt_at)[:70]}` does not (always) resolve them at run time ({shown(rt)}): inspection reports an origin / a required context key for a parameter the node never reads", getattr(rt_at, "lineno", G.lineno))
+
+
+# =====================================================================================================
+# D10: generated element-wise wrappers declare a data type they can keep
+# =====================================================================================================
+def _simplified(e: ast.AST, env: Dict[str, bool]) -> ast.AST:
+    """*e* with the sub-tests listed in *env* (by ast.dump) replaced by their truth value, and / or / not folded"""
+    d = ast.dump(e)
+    if d in env:
+        return ast.Constant(value=env[d])
+    if isinstance(e, ast.UnaryOp) and isinstance(e.op, ast.Not):
+        v = _simplified(e.operand, env)
+        if isinstance(v, ast.Constant) and isinstance(v.value, bool):
+            return ast.Constant(value=not v.value)
+        return ast.UnaryOp(op=ast.Not(), operand=v)
+    if isinstance(e, ast.BoolOp):
+        is_and = isinstance(e.op, ast.And)
+        out: List[ast.AST] = []
+        for v in [_simplified(x, env) for x in e.values]:
+            if isinstance(v, ast.Constant) and isinstance(v.value, bool):
+                if v.value == is_and:
+                    continue  # neutral operand
+                return ast.Constant(value=not is_and)  # decides the truth of the whole test
+            out.append(v)
+        if not out:
+            return ast.Constant(value=is_and)
+        return out[0] if len(out) == 1 else ast.BoolOp(op=e.op, values=out)
+    return e
+
+
+def _elementwise_wrappers(repo: Repo, R: Report) -> None:
+    """The validator trusts the input / output data types a node's processor class declares.  A class generated around a
+    wrapped processor P (`class W(P)` inside a function that receives P) that declares ONE type for input and output
+    (a collection type handed to the factory) and produces its result by delegating to P (`super().process(item)`) tells
+    the truth only when P hands back what it is given: the factory has to establish `P.input_data_type() ==
+    P.output_data_type()` before it creates the class.  Otherwise inspection reports collection -> collection, validation
+    accepts the successor, and the run fails when the outputs of P are put into the declared collection (TypeError)."""
+    from ..normal import nfunc
+
+    r = R.rule("C02-D10-elementwise-wrapper-preserves-type", "a function that generates a processor class around a wrapped processor class P (class W(P): ... super().process(item) ...) and lets W declare the same data type for input and output reaches the class statement only over a branch / assertion that establishes P.input_data_type() == P.output_data_type(): the declared output type the validator relies on is true only for type-preserving wrapped processors", 1)
+    for mod, qn, F0 in _outer_functions(repo):
+        a0 = F0.args
+        params0 = {x.arg for x in list(a0.posonlyargs) + list(a0.args) + list(a0.kwonlyargs)}
+        if not any(isinstance(c, ast.ClassDef) and any(isinstance(b, ast.Name) and b.id in params0 for b in c.bases) for c in ast.walk(F0)):
+            continue
+        try:
+            F = nfunc(repo, mod.rel, qn, copyprop="all") if mod.defs.get(qn) is F0 else F0
+        except AnalysisError:
+            F = F0
+        if not any(isinstance(c, ast.ClassDef) for c in ast.walk(F)):
+            F = F0
+        a = F.args
+        params = {x.arg for x in list(a.posonlyargs) + list(a.args) + list(a.kwonlyargs)}
+        _defs, resolved = _local_defs(F)
+        g: Optional[CFG] = None
+        for C in [c for c in ast.walk(F) if isinstance(c, ast.ClassDef) and next((x for x in ancestors(c) if isinstance(x, FuncNode)), None) is F]:
+            wrapped = [b.id for b in C.bases if isinstance(b, ast.Name) and b.id in params]
+            if len(wrapped) != 1:
+                continue
+            P = wrapped[0]
+            cattrs = {t.id: st.value for st in C.body if isinstance(st, (ast.Assign, ast.AnnAssign)) and st.value is not None for t in _targets(st) if isinstance(t, ast.Name)}
+            meths = {st.name: st for st in C.body if isinstance(st, FuncNode)}
+
+            def declared(name: str) -> Optional[str]:
+                m = meths.get(name)
+                if m is None or not m.args.args:
+                    return None
+                me = m.args.args[0].arg
+                rets = [x.value for x in walk_no_nested(m) if isinstance(x, ast.Return)]
+                if len(rets) != 1 or rets[0] is None:
+                    return None
+                v = rets[0]
+                if isinstance(v, ast.Attribute) and ast.unparse(v.value) in (me, f"type({me})", f"{me}.__class__") and v.attr in cattrs:
+                    v = cattrs[v.attr]
+                return ast.dump(resolved(v))
+
+            d_in, d_out = declared("input_data_type"), declared("output_data_type")
+            if d_in is None or d_out is None or d_in != d_out:
+                continue
+            delegates = [c for m in meths.values() if m.name not in ("input_data_type", "output_data_type") for c in calls_in(m)
+                         if isinstance(c.func, ast.Attribute) and c.func.attr == m.name and isinstance(c.func.value, ast.Call) and call_name(c.func.value) == "super"]
+            if not delegates:
+                continue
+            repo.consulted.add(mod.rel)
+
+            def type_of(e: ast.AST, which: str) -> bool:
+                return isinstance(e, ast.Call) and not e.args and not e.keywords and isinstance(e.func, ast.Attribute) and e.func.attr == which and _is_name(e.func.value, P)
+
+            def preserving(e: ast.AST) -> Optional[bool]:
+                if isinstance(e, ast.Compare) and len(e.ops) == 1:
+                    l, rgt = e.left, e.comparators[0]
+                    if (type_of(l, "input_data_type") and type_of(rgt, "output_data_type")) or (type_of(l, "output_data_type") and type_of(rgt, "input_data_type")):
+                        if isinstance(e.ops[0], (ast.Eq, ast.Is)):
+                            return True
+                        if isinstance(e.ops[0], (ast.NotEq, ast.IsNot)):
+                            return False
+                return None
+
+            if g is None:
+                g = CFG(F, may_raise=lambda part: set())
+            # tests on the factory's own arguments that occur in more than one branch condition (a guard clause in front of
+            # a dispatch on the same test) are correlated: decide per truth assignment of those tests
+            rebound = {x.id for x in ast.walk(F) if isinstance(x, ast.Name) and isinstance(x.ctx, (ast.Store, ast.Del)) and next((y for y in ancestors(x) if isinstance(y, FuncNode)), None) is F}
+
+            def pure(e: ast.AST) -> bool:
+                return isinstance(e, ast.Call) and isinstance(e.func, ast.Name) and e.func.id in ("issubclass", "isinstance") and not e.keywords and len(e.args) == 2 and all(isinstance(x, ast.Name) and x.id not in rebound for x in e.args) and isinstance(e.args[0], ast.Name) and e.args[0].id in params
+
+            tests = {n.id: resolved(n.part if n.kind != "stmt" else n.ast.test) for n in g.nodes if (n.kind in ("if", "while") and n.part is not None) or (n.kind == "stmt" and isinstance(n.ast, ast.Assert))}
+            occurs: Dict[str, Set[int]] = {}
+            for nid, t in tests.items():
+                for x in ast.walk(t):
+                    if pure(x):
+                        occurs.setdefault(ast.dump(x), set()).add(nid)
+            shared = sorted(d for d, where in occurs.items() if len(where) > 1)[:4]
+            cn: List[int] = []
+            seen: Dict[int, Optional[Tuple[int, str]]] = {}
+            for values in itertools.product((True, False), repeat=len(shared)):
+                env = dict(zip(shared, values))
+                blocked: Set[Tuple[int, str]] = set()
+                for nid, t0 in tests.items():
+                    t = _simplified(t0, env)
+                    known = t.value if isinstance(t, ast.Constant) and isinstance(t.value, bool) else None
+                    if g.nodes[nid].kind == "stmt":
+                        if known is False or _implies(t, preserving, True):
+                            blocked.add((nid, "n"))
+                        continue
+                    if known is False or _implies(t, preserving, True):
+                        blocked.add((nid, "T"))
+                    if known is True or _implies(t, preserving, False):
+                        blocked.add((nid, "F"))
+                seen = g.reach([g.entry], blocked_edges=blocked)
+                cn = [i for i in g.nodes_for(C) if i in seen]
+                if cn:
+                    break
+            head = f"class {C.name}({', '.join(ast.unparse(b) for b in C.bases)})"
+            R.check(not cn, r, mod.rel, qn, head,
+                    f"`{head}` declares one data type for input and output and delegates to the wrapped `{P}` (`{norm(delegates[0])[:50]}`), but the class is created on a path on which `{P}.input_data_type() == {P}.output_data_type()` was never established: around a type-changing processor the generated node is reported (and validated) as producing the declared type although the wrapped processor hands back another one - an accepted pipeline fails at run time (TypeError when the results are collected / at the next typed node)",
+                    C.lineno, path=g.path_to(seen, cn[0]) if cn else None)
+
+
+# =====================================================================================================
+# D11: a generated wrapper hands the wrapped element every parameter it lets the node resolve
+# =====================================================================================================
+def _wrappers_forward_resolved(repo: Repo, R: Report) -> None:
+    """Inspection reports the origin of every name the wrapper class advertises (its get_processing_parameter_names /
+    signature): configuration, context produced by node i, initial context, default.  That report is true of the run only
+    if the value the node resolved under that name is the one the wrapped element computes with, i.e. the wrapper's logic
+    selects it from the resolved arguments and spreads it into the element's call.  The condition is the interface
+    condition C01 decides inside the generated class (advertised name collections vs. forwarded name collections); it is
+    a necessary condition of C02 as well and is re-applied here under C02's prefix."""
+    from . import c01
+
+    R.rule_prefix = "C02-D11/"
+    try:
+        c01._rule_wrappers_forward_advertised(repo, R)
+    finally:
+        R.rule_prefix = ""
